@@ -114,6 +114,24 @@ def _worker(task):
     return out
 
 
+def _lemma_worker(task):
+    (root, prop, _k, _i, tier) = task
+    from pyvc.api import REG
+    from pyvc.engine import Obligation
+    from pyvc.backend import discharge
+    out = {"rel": "(specification)", "qual": "lemmas", "obligations": [], "error": None,
+           "canary": {"count": 0, "proved_false": []}, "paths": 0, "outcomes": {}, "fingerprint": None, "note": "",
+           "wall": 0}
+    for (p, name, pc, goal) in REG.lemmas:
+        if p != prop:
+            continue
+        ob = Obligation("%s/lemma/%s" % (prop, name), "lemma", pc, goal, name)
+        discharge(ob, tier, want_model=False)
+        out["obligations"].append({"name": ob.name, "kind": "lemma", "status": ob.status, "time": round(ob.time, 4),
+                                   "backend": ob.backend, "text": name, "line": 0, "detail": ob.detail})
+    return out
+
+
 def run_prover(root, prop, tier, jobs):
     REG, todo = load_contracts(prop)
     tasks = [(root, prop, key, idx, tier) for key, idx in todo]
@@ -125,6 +143,8 @@ def run_prover(root, prop, tier, jobs):
         ctx = mp.get_context("fork")
         with ctx.Pool(min(jobs, len(tasks))) as pool:
             results = pool.map(_worker, tasks, chunksize=1)
+    if any(p == prop for (p, _n, _pc, _g) in REG.lemmas):
+        results.append(_lemma_worker((root, prop, None, None, tier)))
     return REG, results
 
 
